@@ -1015,6 +1015,18 @@ func (e *Explorer) Assert(label string, c *Term) {
 		e.recordCex(cex)
 		e.abort("stop", "assertion violated")
 	default:
+		// second opinion: the incremental solver gave up within its budget (typically on a loaded machine); the
+		// same obligation as a stand-alone script goes to a portfolio of fresh solver processes with a larger
+		// budget. Only an "unsat" from one of them discharges the obligation; anything else stays inconclusive.
+		roots := append(append([]*Term{}, e.pc...), neg)
+		if who := secondOpinion(standaloneScript(roots), e.s.timeout); who != "" {
+			sh.mu.Lock()
+			sh.Discharge++
+			sh.Notes["obligation decided by the fallback portfolio ("+who+") after the incremental solver gave up: "+label]++
+			sh.mu.Unlock()
+			e.known[c.ID] = true
+			return
+		}
 		sh.mu.Lock()
 		sh.Unknown++
 		sh.Notes["assertion query inconclusive ("+r+"): "+label]++
